@@ -482,6 +482,85 @@ func c17(c *Ctx) {
 				r.Check(ok, "C17.Y2", hgm.Name(), "404 only when the error is not 'not yet seen'", c.P.Pos(v.Node.Pos()), "dominated by err != ErrSessionNotYetSeen",
 					"GetMessages answers 404 for a session the follower has merely not seen yet")
 			}
+			// the status code held in a variable (`code := 404; if err == NotYetSeen { code = 500 }; http.Error(w, …, code)`): a
+			// definition `code = 404` may be the value at the answer only on paths that establish err != 'not yet seen'
+			for _, v := range g.Nodes() {
+				for _, call := range astx.Calls(v.Node, false) {
+					fn := astx.Callee(info, call)
+					if fn == nil || !isFunc(fn, "net/http", "Error") || len(call.Args) != 3 {
+						continue
+					}
+					cid, isID := ast.Unparen(call.Args[2]).(*ast.Ident)
+					if !isID {
+						continue
+					}
+					if _, isConst := astx.ConstInt(info, cid); isConst {
+						continue
+					}
+					cobj := astx.Obj(info, cid)
+					defVal := func(x int) (int64, bool, bool) { // value, is constant, is a definition
+						if g.V[x].Node == nil {
+							return 0, false, false
+						}
+						val, isC, isDef := int64(0), false, false
+						ast.Inspect(g.V[x].Node, func(m ast.Node) bool {
+							switch y := m.(type) {
+							case *ast.AssignStmt:
+								for i, l := range y.Lhs {
+									if id, ok := l.(*ast.Ident); ok && astx.Obj(info, id) == cobj {
+										isDef = true
+										if len(y.Lhs) == len(y.Rhs) {
+											val, isC = astx.ConstInt(info, y.Rhs[i])
+										}
+									}
+								}
+							case *ast.ValueSpec:
+								for i, id := range y.Names {
+									if info.Defs[id] == cobj {
+										isDef = true
+										if i < len(y.Values) {
+											val, isC = astx.ConstInt(info, y.Values[i])
+										} else {
+											val, isC = 0, true
+										}
+									}
+								}
+							}
+							return true
+						})
+						return val, isC, isDef
+					}
+					notNYS := func(e *cfgx.Edge) bool {
+						for _, f := range e.Facts() {
+							if isCmp, eq := isNYS(info, f.Expr); isCmp && f.Tag == nil && eq != f.Val {
+								return true
+							}
+							if f.Tag != nil && !f.Val && refersTo(info, f.Expr, pathIrcsrv, "ErrSessionNotYetSeen") {
+								return true
+							}
+						}
+						return false
+					}
+					for x := range g.V {
+						val, isC, isDef := defVal(x)
+						if !isDef || (isC && val != 404) {
+							continue
+						}
+						n++
+						reaches := g.Reach(x, func(y int) bool { _, _, d := defVal(y); return d && y != x }, notNYS)[v.ID]
+						// the definition itself may already sit behind err != 'not yet seen'
+						behind := false
+						for _, f := range g.FactsAt(x) {
+							if isCmp, eq := isNYS(info, f.Expr); isCmp && f.Tag == nil && eq != f.Val {
+								behind = true
+							}
+						}
+						r.Check(!reaches || behind, "C17.Y2", hgm.Name(), "status 404 held in "+cid.Name+" reaches the answer only when the error is not 'not yet seen'", c.P.Pos(g.V[x].Node.Pos()),
+							"every path from this definition to http.Error passes another definition or establishes err != ErrSessionNotYetSeen",
+							"GetMessages answers 404 for a session the follower has merely not seen yet")
+					}
+				}
+			}
 			r.Check(n > 0, "C17.Y2", hgm.Name(), "404 answer found", c.P.Pos(hgm.Node().Pos()), "found", "handleGetMessages has no 404 answer")
 		}
 	}
